@@ -13,7 +13,7 @@ Lemma cb_between : forall o args, call_builtin o (L "between") args = Some
     match args with
     | [v; lo; hi] =>
         if is_number v && is_number lo && is_number hi
-        then BVal (VBool (negb (numeric_less v lo || numeric_less hi v)))
+        then BVal (VBool (numeric_le lo v && numeric_le v hi))
         else BVal VNull
     | _ => BVal VNull
     end.
@@ -43,8 +43,7 @@ Qed.
 Lemma between_ints : forall o v lo hi,
   call_builtin o (L "between") [VInt v; VInt lo; VInt hi] = Some (BVal (VBool ((lo <=? v)%Z && (v <=? hi)%Z))).
 Proof.
-  intros. rewrite cb_between. simpl.
-  rewrite negb_orb, <- !Z.leb_antisym. reflexivity.
+  intros. rewrite cb_between. reflexivity.
 Qed.
 
 (* ------------------------------------------------------------------ *)
@@ -161,18 +160,62 @@ Proof.
   - apply nlt_le; assumption.
 Qed.
 
+(* numeric_le is the language's own <= on numbers, NaN included *)
+Lemma numeric_le_binop : forall o a b,
+  is_number a = true -> is_number b = true ->
+  vm_binop o BLe a b = Ok (VBool (numeric_le a b)).
+Proof.
+  intros o a b Ha Hb.
+  destruct a; try discriminate Ha; destruct b; try discriminate Hb; reflexivity.
+Qed.
+
 Lemma between_iff : forall o v lo hi b1 b2,
   is_number v = true -> is_number lo = true -> is_number hi = true ->
-  (forall x, In (VFloat x) [v; lo; hi] -> PrimFloat.eqb x x = true) ->
   vm_binop o BLe lo v = Ok (VBool b1) -> vm_binop o BLe v hi = Ok (VBool b2) ->
   call_builtin o (L "between") [v; lo; hi] = Some (BVal (VBool (b1 && b2))).
 Proof.
-  intros o v lo hi b1 b2 Hv Hlo Hhi Hnn H1 H2.
-  assert (Nn : forall w, In w [v; lo; hi] -> num_nn w).
-  { intros w Hw. destruct w; simpl; trivial. apply eqb_refl_not_nan, Hnn, Hw. }
+  intros o v lo hi b1 b2 Hv Hlo Hhi H1 H2.
+  rewrite (numeric_le_binop o lo v Hlo Hv) in H1. injection H1 as <-.
+  rewrite (numeric_le_binop o v hi Hv Hhi) in H2. injection H2 as <-.
+  rewrite cb_between, Hv, Hlo, Hhi. reflexivity.
+Qed.
+
+(* a NaN lies in no interval, and nothing lies in an interval with a NaN bound *)
+Lemma eqb_false_nan : forall x, PrimFloat.eqb x x = false -> Prim2SF x = S754_nan.
+Proof.
+  intros x H. rewrite FloatAxioms.eqb_spec in H. unfold SFeqb in H.
+  destruct (Prim2SF x) as [s|s| |s m e]; try reflexivity; exfalso.
+  - destruct s; discriminate H.
+  - destruct s; discriminate H.
+  - destruct s; simpl in H; rewrite Z.compare_refl, Pos.compare_cont_refl in H; discriminate H.
+Qed.
+
+Lemma leb_nan_l : forall x y, Prim2SF x = S754_nan -> PrimFloat.leb x y = false.
+Proof. intros x y H. rewrite FloatAxioms.leb_spec. unfold SFleb. rewrite H. reflexivity. Qed.
+
+Lemma leb_nan_r : forall x y, Prim2SF y = S754_nan -> PrimFloat.leb x y = false.
+Proof.
+  intros x y H. rewrite FloatAxioms.leb_spec. unfold SFleb. rewrite H.
+  destruct (Prim2SF x) as [s|s| |s m e]; try reflexivity; destruct s; reflexivity.
+Qed.
+
+Lemma numeric_le_nan_l : forall x b, Prim2SF x = S754_nan -> numeric_le (VFloat x) b = false.
+Proof. intros x b H. destruct b; try reflexivity; apply leb_nan_l; exact H. Qed.
+
+Lemma numeric_le_nan_r : forall a x, Prim2SF x = S754_nan -> numeric_le a (VFloat x) = false.
+Proof. intros a x H. destruct a; try reflexivity; apply leb_nan_r; exact H. Qed.
+
+Lemma between_nan : forall o v lo hi x,
+  is_number v = true -> is_number lo = true -> is_number hi = true ->
+  In (VFloat x) [v; lo; hi] -> PrimFloat.eqb x x = false ->
+  call_builtin o (L "between") [v; lo; hi] = Some (BVal (VBool false)).
+Proof.
+  intros o v lo hi x Hv Hlo Hhi Hin Hx. apply eqb_false_nan in Hx.
   rewrite cb_between, Hv, Hlo, Hhi. simpl andb. cbv iota.
-  rewrite negb_orb.
-  rewrite (numeric_nlt_le o v lo b1), (numeric_nlt_le o hi v b2); auto; apply Nn; simpl; auto.
+  destruct Hin as [->|[->|[->|[]]]].
+  - rewrite numeric_le_nan_r by exact Hx. reflexivity.
+  - rewrite numeric_le_nan_l by exact Hx. reflexivity.
+  - rewrite (numeric_le_nan_r v) by exact Hx. rewrite andb_false_r. reflexivity.
 Qed.
 
 (* ------------------------------------------------------------------ *)
